@@ -349,6 +349,22 @@ static NOINLINE void ct_beltKWPUnwrap(size_t n, int v, int fast)
 	sink = (size_t)beltKWPUnwrap(DATA, CT, n + 16, HDR, KEY, 32);
 	trace_on = 0; PUBLIC((void*)&sink, sizeof(sink)); PUBLIC(KEY, 32); PUBLIC(CT, n + 16); PUBLIC(HDR, 16); PUBLIC(DATA, n);
 }
+/* header == NULL (an all-zero header is expected): rejected tokens whose recovered header agrees with it in the first
+   0..15 octets must be indistinguishable from each other (a scan that stops at the first wrong octet is not) */
+static NOINLINE void ct_beltKWPUnwrap0(size_t n, int v, int fast)
+{
+	octet hdr[16];
+	size_t k = (size_t)(v >> 1) % 16, i;
+	if (n < 16) n = 16;
+	gen_sym(n);
+	memset(hdr, 0, 16);
+	if (v & 1)
+		for (i = k; i < 16; ++i) hdr[i] = (octet)(HDR[i] | 1);		/* first wrong octet at position k */
+	beltKWPWrap(CT, DATA, n, hdr, KEY, 32);
+	SECRET(KEY, 32); SECRET(CT, n + 16); trace_on = 1;
+	sink = (size_t)beltKWPUnwrap(DATA, CT, n + 16, 0, KEY, 32);
+	trace_on = 0; PUBLIC((void*)&sink, sizeof(sink)); PUBLIC(KEY, 32); PUBLIC(CT, n + 16); PUBLIC(DATA, n);
+}
 /* symmetric primitives and modes: key and data secret, no comparison */
 static NOINLINE void ct_beltModes(size_t n, int v, int fast)
 {
@@ -405,7 +421,7 @@ static const target_t targets[] = {
 	TG(u16CTZ, 0, 0, 1), TG(u16CLZ, 0, 0, 1), TG(u32CTZ, 0, 0, 1), TG(u32CLZ, 0, 0, 1), TG(u64CTZ, 0, 0, 1), TG(u64CLZ, 0, 0, 1),
 	TG(beltMACStepV, 0, 70, 0), TG(beltHashStepV, 0, 70, 0), TG(beltHMACStepV, 0, 70, 0), TG(bashHashStepV, 0, 200, 0),
 	TG(beltDWPStepV, 0, 70, 0), TG(beltCHEStepV, 0, 70, 0),
-	TG(beltDWPUnwrap, 0, 70, 2), TG(beltCHEUnwrap, 0, 70, 2), TG(beltKWPUnwrap, 16, 70, 2),
+	TG(beltDWPUnwrap, 0, 70, 2), TG(beltCHEUnwrap, 0, 70, 2), TG(beltKWPUnwrap, 16, 70, 2), TG(beltKWPUnwrap0, 16, 70, 2),
 	TG(beltModes, 32, 100, 0), TG(beltModes16, 0, 1, 0), TG(bash, 0, 200, 0),
 };
 #define NT (sizeof(targets) / sizeof(targets[0]))
